@@ -8,10 +8,10 @@ the sorted element list only. The headline theorem `step_refines_canon` says tha
 maintained incrementally by ANY history of `Set` (new or existing ids) and `RemoveId` (present or
 absent ids) IS the canonical index of its current skip list — shape, counts and digests.
 
-Hypotheses, all explicit: ids determine hashes and hashes are 64-bit (`Op.Wf`); the width
-hypothesis `TopOk` for every intermediate contents (F-ldiff-width: every range that must be divided
-splits properly — for the Go arithmetic this is `goSplit_ok`: true for every range not narrower
-than `df`). The digest algebra `A` and the splitter `S` are arbitrary.
+Hypotheses, all explicit: ids determine hashes and hashes are 64-bit (`Op.Wf`); the splitter is
+good (`SplitterOk`: every range that can be divided splits properly and the depth budget suffices)
+— proved for the Go arithmetic (`splitterOk_go`), so the `_go` theorems carry no width hypothesis
+(fix-width: a range narrower than `df` is never divided). The digest algebra `A` is arbitrary.
 -/
 namespace AnySync.Ldiff
 
@@ -147,46 +147,43 @@ theorem run_canon {D} (A : DigAlg D) (S : Splitter) (hf : Nat → Nat) (p : Para
 operational index equals the canonical index of its current contents. -/
 theorem step_refines_canon {D} (A : DigAlg D) (S : Splitter) (hf : Nat → Nat) (df thr : Nat)
     (ops : List Op) (hops : ∀ op, op ∈ ops → op.Wf hf)
-    (hok : ∀ k, k ≤ ops.length → TopOk S (Params.clamp df thr) (slRun [] (ops.take k))) :
+    (hS : SplitterOk S (Params.clamp df thr).df) :
     (Index.new A S df thr).run A S ops = canon A S (Params.clamp df thr) (slRun [] ops) :=
-  run_canon A S hf (Params.clamp df thr) ops [] ⟨by simp, by simp⟩ hops hok
+  run_canon A S hf (Params.clamp df thr) ops [] ⟨by simp, by simp⟩ hops
+    (fun _ _ => topOk_of_splitterOk S _ _ hS)
 
 /-- **hash_history_independent / equal_contents_equal_top_hash.** Two histories ending in the same
 skip list advertise the same top hash (what `DiffTypeCheck` compares) … -/
 theorem hash_history_independent {D} (A : DigAlg D) (S : Splitter) (hf : Nat → Nat) (df thr : Nat)
     (ops₁ ops₂ : List Op) (h₁ : ∀ op, op ∈ ops₁ → op.Wf hf) (h₂ : ∀ op, op ∈ ops₂ → op.Wf hf)
-    (ok₁ : ∀ k, k ≤ ops₁.length → TopOk S (Params.clamp df thr) (slRun [] (ops₁.take k)))
-    (ok₂ : ∀ k, k ≤ ops₂.length → TopOk S (Params.clamp df thr) (slRun [] (ops₂.take k)))
+    (hS : SplitterOk S (Params.clamp df thr).df)
     (hsame : slRun [] ops₁ = slRun [] ops₂) :
     ((Index.new A S df thr).run A S ops₁).hash = ((Index.new A S df thr).run A S ops₂).hash := by
-  rw [step_refines_canon A S hf df thr ops₁ h₁ ok₁, step_refines_canon A S hf df thr ops₂ h₂ ok₂, hsame]
+  rw [step_refines_canon A S hf df thr ops₁ h₁ hS, step_refines_canon A S hf df thr ops₂ h₂ hS, hsame]
 
 /-- **ranges_history_independent.** … and answer every range query identically (hash, count,
 elements), with or without elements. -/
 theorem ranges_history_independent {D} (A : DigAlg D) (S : Splitter) (hf : Nat → Nat) (df thr : Nat)
     (ops₁ ops₂ : List Op) (h₁ : ∀ op, op ∈ ops₁ → op.Wf hf) (h₂ : ∀ op, op ∈ ops₂ → op.Wf hf)
-    (ok₁ : ∀ k, k ≤ ops₁.length → TopOk S (Params.clamp df thr) (slRun [] (ops₁.take k)))
-    (ok₂ : ∀ k, k ≤ ops₂.length → TopOk S (Params.clamp df thr) (slRun [] (ops₂.take k)))
+    (hS : SplitterOk S (Params.clamp df thr).df)
     (hsame : slRun [] ops₁ = slRun [] ops₂) (lo hi : Nat) (w : Bool) :
     ((Index.new A S df thr).run A S ops₁).getRange A S lo hi w
       = ((Index.new A S df thr).run A S ops₂).getRange A S lo hi w := by
-  rw [step_refines_canon A S hf df thr ops₁ h₁ ok₁, step_refines_canon A S hf df thr ops₂ h₂ ok₂, hsame]
+  rw [step_refines_canon A S hf df thr ops₁ h₁ hS, step_refines_canon A S hf df thr ops₂ h₂ hS, hsame]
 
 /-- the incrementally maintained index equals the one rebuilt at start-up by ONE `Set(all…)`
 (the oracle of the harness): a single multi-element `Set` is the history of its elements. -/
 theorem rebuilt_equals_incremental {D} (A : DigAlg D) (S : Splitter) (hf : Nat → Nat) (df thr : Nat)
     (ops : List Op) (es : List Elem)
     (h₁ : ∀ op, op ∈ ops → op.Wf hf) (h₂ : ∀ op, op ∈ es.map Op.set1 → op.Wf hf)
-    (ok₁ : ∀ k, k ≤ ops.length → TopOk S (Params.clamp df thr) (slRun [] (ops.take k)))
-    (ok₂ : ∀ k, k ≤ (es.map Op.set1).length →
-      TopOk S (Params.clamp df thr) (slRun [] ((es.map Op.set1).take k)))
+    (hS : SplitterOk S (Params.clamp df thr).df)
     (hsame : slRun [] ops = slRun [] (es.map Op.set1)) :
     (Index.new A S df thr).run A S ops = (Index.new A S df thr).set A S es := by
   have hset : (Index.new A S df thr).set A S es = (Index.new A S df thr).run A S (es.map Op.set1) := by
     simp only [Index.set, Index.run, List.foldl_map]
     rfl
-  rw [hset, step_refines_canon A S hf df thr ops h₁ ok₁,
-    step_refines_canon A S hf df thr _ h₂ ok₂, hsame]
+  rw [hset, step_refines_canon A S hf df thr ops h₁ hS,
+    step_refines_canon A S hf df thr _ h₂ hS, hsame]
 
 /-- the skip list stays sorted by `(hash, id)` -/
 theorem slStep_sorted (hf : Nat → Nat) (sl : List Elem) (op : Op) (hs : Sorted sl) :
@@ -221,32 +218,39 @@ with the same set of entries produce the SAME index: same tree, same `Hash()`, s
 every range query. -/
 theorem equal_contents_equal_index {D} (A : DigAlg D) (S : Splitter) (hf : Nat → Nat) (df thr : Nat)
     (ops₁ ops₂ : List Op) (h₁ : ∀ op, op ∈ ops₁ → op.Wf hf) (h₂ : ∀ op, op ∈ ops₂ → op.Wf hf)
-    (ok₁ : ∀ k, k ≤ ops₁.length → TopOk S (Params.clamp df thr) (slRun [] (ops₁.take k)))
-    (ok₂ : ∀ k, k ≤ ops₂.length → TopOk S (Params.clamp df thr) (slRun [] (ops₂.take k)))
+    (hS : SplitterOk S (Params.clamp df thr).df)
     (hsame : ∀ e, e ∈ slRun [] ops₁ ↔ e ∈ slRun [] ops₂) :
     (Index.new A S df thr).run A S ops₁ = (Index.new A S df thr).run A S ops₂ := by
-  rw [step_refines_canon A S hf df thr ops₁ h₁ ok₁, step_refines_canon A S hf df thr ops₂ h₂ ok₂,
+  rw [step_refines_canon A S hf df thr ops₁ h₁ hS, step_refines_canon A S hf df thr ops₂ h₂ hS,
     canon_deterministic hf ops₁ ops₂ h₁ h₂ hsame]
 
-/-- **step_refines_canon for the Go arithmetic** (`goSplit` = `genTupleRanges`/`getBottomRange`
-with fix-bottomrange): the width hypothesis becomes the concrete "no range that must be divided is
-narrower than `df`" (`NoNarrow`, what the harness's `widthSafe` checks), the partition facts are
-proved (`goSplit_ok`). -/
-theorem step_refines_canon_go {D} (A : DigAlg D) (hf : Nat → Nat) (df thr : Nat) (hM : df ≤ M)
-    (ops : List Op) (hops : ∀ op, op ∈ ops → op.Wf hf)
-    (hok : ∀ k, k ≤ ops.length → ∀ i, i < (Params.clamp df thr).df →
-      NoNarrow (Params.clamp df thr) (slRun [] (ops.take k)) depthFuel
-        (childRange 0 (M - 1) (Params.clamp df thr).df i).1
-        (childRange 0 (M - 1) (Params.clamp df thr).df i).2) :
-    (Index.new A goSplit df thr).run A goSplit ops
-      = canon A goSplit (Params.clamp df thr) (slRun [] ops) := by
+/-- the clamped divide factor is at least 2 and, for `df ≤ 2^64`, a good splitter -/
+theorem clamp_splitterOk (df thr : Nat) (hM : df ≤ M) : SplitterOk goSplit (Params.clamp df thr).df := by
   have hdf : 2 ≤ (Params.clamp df thr).df := by simp only [Params.clamp]; split <;> omega
   have hM' : (Params.clamp df thr).df ≤ M := by
     simp only [Params.clamp]; split
     · simp [M]
     · exact hM
-  exact step_refines_canon A goSplit hf df thr ops hops
-    (fun k hk => topOk_go _ _ hdf hM' (hok k hk))
+  exact splitterOk_go _ hdf hM'
+
+/-- **step_refines_canon for the Go arithmetic** (`goSplit` = `genTupleRanges` / `getBottomRange`
+with fix-bottomrange / `canDivide` of fix-width): NO width hypothesis is left — a range narrower
+than `df` is never divided, every divided range splits properly (`goSplit_ok`), and the depth
+budget always suffices (`splitterOk_go`). -/
+theorem step_refines_canon_go {D} (A : DigAlg D) (hf : Nat → Nat) (df thr : Nat) (hM : df ≤ M)
+    (ops : List Op) (hops : ∀ op, op ∈ ops → op.Wf hf) :
+    (Index.new A goSplit df thr).run A goSplit ops
+      = canon A goSplit (Params.clamp df thr) (slRun [] ops) :=
+  step_refines_canon A goSplit hf df thr ops hops (clamp_splitterOk df thr hM)
+
+/-- **C08 for the Go arithmetic, assembled and unconditional**: any two histories of `Set` /
+`RemoveId` ending with the same set of entries give the same index — same `Hash()`, same answer
+to every range query. -/
+theorem equal_contents_equal_index_go {D} (A : DigAlg D) (hf : Nat → Nat) (df thr : Nat) (hM : df ≤ M)
+    (ops₁ ops₂ : List Op) (h₁ : ∀ op, op ∈ ops₁ → op.Wf hf) (h₂ : ∀ op, op ∈ ops₂ → op.Wf hf)
+    (hsame : ∀ e, e ∈ slRun [] ops₁ ↔ e ∈ slRun [] ops₂) :
+    (Index.new A goSplit df thr).run A goSplit ops₁ = (Index.new A goSplit df thr).run A goSplit ops₂ :=
+  equal_contents_equal_index A goSplit hf df thr ops₁ ops₂ h₁ h₂ (clamp_splitterOk df thr hM) hsame
 
 /-- **genTupleRanges_partition** (re-exported from `Ldiff/Arith.lean`): for `lo ≤ hi < 2^64`,
 `df ≥ 2` and width ≥ `df` the Go loop returns `df` parts that lie inside `[lo,hi]`, and
